@@ -128,13 +128,21 @@ static std::string itemsTok(const std::vector<Item> &v)
     return s;
 }
 static QString xmlEsc(const std::string &s) { return QString::fromStdString(s).toHtmlEscaped(); }
+// The pending-subscription state of an item (ask='subscribe', approved='true') travels inside the name token as a
+// "~s" / "~a" / "~sa" suffix: for the model the name is an opaque payload stored with the item, so the suffix is carried
+// through every full roster and push without a change to the model; here it is written as the real attributes and read
+// back through subscriptionStatus() / isApproved().
+static std::string plainName(const std::string &n) { auto k = n.find('~'); return k == std::string::npos ? n : n.substr(0, k); }
+static std::string flagsOf(const std::string &n) { auto k = n.find('~'); return k == std::string::npos ? "" : n.substr(k + 1); }
 static QString itemsXml(const std::vector<Item> &v)
 {
     QString x;
     for (auto &i : v) {
         x += "<item jid='" + xmlEsc(i.jid) + "'";
-        if (!i.name.empty()) x += " name='" + xmlEsc(i.name) + "'";
+        if (!plainName(i.name).empty()) x += " name='" + xmlEsc(plainName(i.name)) + "'";
         if (i.sub != "-") x += " subscription='" + xmlEsc(i.sub) + "'";
+        if (flagsOf(i.name).find('s') != std::string::npos) x += " ask='subscribe'";
+        if (flagsOf(i.name).find('a') != std::string::npos) x += " approved='true'";
         x += ">";
         for (auto &g : i.groups) x += "<group>" + xmlEsc(g) + "</group>";
         x += "</item>";
@@ -246,7 +254,8 @@ struct Env {
         View v;
         for (const auto &j : mgr->getRosterBareJids()) {
             auto e = mgr->getRosterEntry(j);
-            ViewEntry ve { e.name().toStdString(), subStr(e.subscriptionType()), {} };
+            std::string fl = std::string(e.subscriptionStatus() == "subscribe" ? "s" : "") + (e.isApproved() ? "a" : "");
+            ViewEntry ve { e.name().toStdString() + (fl.empty() ? "" : "~" + fl), subStr(e.subscriptionType()), {} };
             for (const auto &g : e.groups()) ve.groups.insert(g.toStdString());
             v[j.toStdString()] = ve;
         }
@@ -642,6 +651,14 @@ int main(int argc, char **argv)
              iq("set", "me2@example.org/tab", "p2", { { B, "B", "to", {} } }), res(0, "me2@example.org", { { A, "x", "both", {} } }),
              res(0, own, { { A, "Alice", "both", {} } }), setjid(ownFull), iq("set", "me2@example.org", "p3", { { B, "", "remove", {} } }) }, true);
 
+    // pushes for a contact already in the roster that differ from the stored item ONLY in ask= / approved=
+    runSeq({ conn(0), res(0, "", { { A, "A1~s", "none", { "g" } }, { B, "B0", "to", {} } }),
+             iq("set", "", "q1", { { A, "A1", "none", { "g" } } }),        // request denied / cancelled: ask cleared
+             iq("set", own, "q2", { { A, "A1~a", "none", { "g" } } }),     // pre-approval granted
+             iq("set", "", "q3", { { A, "A1~sa", "none", { "g" } } }),
+             iq("set", ownFull, "q4", { { B, "B0~s", "to", {} } }),
+             iq("set", "", "q5", { { A, "A1~s", "none", { "g" } } }) }, true);  // approval withdrawn
+
     // ---- exhaustive, roster alphabet ---------------------------------------------------------
     const std::vector<Item> R1 = { { A, "A1", "both", { "g" } } }, R2 = { { B, "B0", "to", {} }, { A, "A0", "none", {} } };
     std::vector<Sym> alphaR = {
@@ -712,6 +729,8 @@ int main(int argc, char **argv)
             Item it { jids[rng.below(jids.size())], names[rng.below(names.size())], subs[rng.below(subs.size())], {} };
             int ng = rng.below(3);
             for (int g = 0; g < ng; g++) it.groups.push_back(groups[rng.below(groups.size())]);
+            static const char *fl[] = { "", "", "", "~s", "~a", "~sa" };
+            it.name += fl[rng.below(6)];
             v.push_back(it);
         }
         return v;
